@@ -12,6 +12,7 @@ import (
 	"os"
 	"runtime"
 	"sort"
+	"syscall"
 	"time"
 
 	"verif/harness/internal/vh"
@@ -23,6 +24,9 @@ func main() {
 		return
 	}
 	runtime.LockOSThread() // CPU-time clock of this thread, see cpuNow
+	// safety net: nothing this harness does legitimately needs more than a few hundred MB; a run-away
+	// allocation in the code under test kills the harness (reported by bin/check) instead of the machine
+	_ = syscall.Setrlimit(syscall.RLIMIT_AS, &syscall.Rlimit{Cur: 16 << 30, Max: 16 << 30})
 	cfg = vh.ParseFlags("C08")
 	rep = vh.NewReport(cfg)
 	rep.Rule = "three streams per entry point: structured (valid outer layer: valid checksum / valid framing / valid JSON, degenerate inner content), mutation of valid samples, random bytes, plus fixed edge cases and size-doubling probes; " +
